@@ -1398,7 +1398,18 @@ FATAL = re.compile(r"ret (\w+) err (Transport\.\w+|Disconnected|Peer\.InvalidPac
 def c11(run, an=None):
     out = []
     dead = False
+    an = an or Analysis(run)
+    # a broker DISCONNECT (any reason code) consumed by the session ends the connection: from the step
+    # in which its last byte was read on, the handle must be dead
+    disc_at = {}
+    for t, n in enumerate(an.nets):
+        for p in n["server"]:
+            if p["type"] == "DISCONNECT" and not p.get("handshake_garbage"):
+                disc_at.setdefault(p["when"][0], t)
     for st in run.steps:
+        if st.idx in disc_at and st.state is not None and st.net_after == disc_at[st.idx] and st.state.live == "1" \
+                and any(e.startswith("ret ") and not e.startswith("ret connect") for e in st.events):
+            out.append(V("C11", "not-latched", f"a broker DISCONNECT was consumed but the handle is still live: {[e for e in st.events if e.startswith('ret')]}", step=st.idx))
         if any(e.startswith("net ") for e in st.events):
             dead = False
             # the connect itself may fail; a failed connect yields no handle
@@ -1514,6 +1525,10 @@ def c12(run, an=None):
             bad = [e for e in s.ret if e[3] != "w0"] + [e for e in s.rel if e[2] != "w0"] + [e for e in s.ctl if e[3] != "w0"]
             if bad:
                 out.append(V("C12", "partial-outbound-carried-over", f"after connect: {s.raw}", step=res[0].idx))
+            # "leaves the session fully usable": a fresh session starts with nothing in flight, so the
+            # whole send window of this CONNACK must be available
+            if " connected" in res[1] and not s.ret and not s.rel and s.q != s.qmax:
+                out.append(V("C12", "fresh-session-window-short", f"after connect to a fresh session: send quota {s.q} of {s.qmax}, nothing in flight", step=res[0].idx))
     return out
 
 
@@ -1988,8 +2003,13 @@ def c15_twin(a, b):
     wb = [bytes(n["wire"]).hex() for n in b.nets]
     if wa != wb:
         out.append(V("C15", "outbound-differs", f"whole-chunk run wrote {wa}, fragmented run wrote {wb}"))
-    ra = [re.sub(r" @\d+$", "", e) for st in a.steps for e in st.events if e.startswith(("ret ", "msg "))]
-    rb = [re.sub(r" @\d+$", "", e) for st in b.steps for e in st.events if e.startswith(("ret ", "msg "))]
+    # `poll`/`drive` returning Ok(None) only says "something advanced"; how many such returns it takes
+    # to get the same work done depends on how many pieces the transport cut it into, so they are not
+    # operation results in the sense of the property
+    def results(run):
+        return [re.sub(r" @\d+$", "", e) for st in run.steps for e in st.events
+                if e.startswith(("ret ", "msg ")) and not re.match(r"ret (poll|drive) ok none", e)]
+    ra, rb = results(a), results(b)
     if ra != rb:
         out.append(V("C15", "results-differ", f"{ra} vs {rb}"))
     return out
